@@ -1,7 +1,281 @@
-//! C17 driver (stub: not built yet).
-use crate::trace::Args;
+//! C17 driver: prime enumeration (`fbase::primes`, `fbase::PrimeSieve`) and stage-1 exponent blocks
+//! (`ecm::SmoothBase`, `pollard_pm1::PM1Base`, the blocks `pm1_impl` feeds to its exponentiations).
+//!
+//! The driver only records what the library returned.  Lists of primes are cut into runs of equal
+//! `value >> 16` and logged as offsets inside that 2^16-wide segment (TLC integers are 32-bit); exponent
+//! blocks are logged with the factorisation found by the driver's own trial division (a witness the
+//! specification multiplies back).  Whether a list is right is decided by spec/primes/PrimesTrace.tla.
 
-pub fn run(_args: &Args) -> i32 {
-    eprintln!("driver c17 not built yet");
-    2
+use serde_json::{json, Value};
+
+use yamaquasi::ecm::{vhook_smooth as ecm_hook, SmoothBase};
+use yamaquasi::fbase;
+use yamaquasi::pollard_pm1::{self, vhook_smooth as pm1_hook, PM1Base};
+use yamaquasi::{Uint, Verbosity};
+
+use crate::gen::is_prime_u64;
+use crate::trace::*;
+
+/// own table of primes below `n` (plain sieve, independent of the library): trial divisors only
+fn own_primes(n: usize) -> Vec<u64> {
+    let mut s = vec![true; n.max(2)];
+    s[0] = false;
+    s[1] = false;
+    let mut i = 2;
+    while i * i < n {
+        if s[i] {
+            let mut k = i * i;
+            while k < n {
+                s[k] = false;
+                k += i;
+            }
+        }
+        i += 1;
+    }
+    (0..n).filter(|&i| s[i]).map(|i| i as u64).collect()
+}
+
+fn rem_small(words: &[u64], p: u64) -> u64 {
+    let mut r: u128 = 0;
+    for &w in words.iter().rev() {
+        r = ((r << 64) | w as u128) % p as u128;
+    }
+    r as u64
+}
+
+/// v = rest * prod p^e over the trial primes; returns ([[p,e]..], rest)
+fn factor_block(v: &Uint, trial: &[u64]) -> (Vec<Value>, Uint) {
+    let mut rest = *v;
+    let mut f = vec![];
+    if rest.is_zero() {
+        return (f, rest);
+    }
+    for &p in trial {
+        if rest.bits() <= 1 {
+            break;
+        }
+        if rem_small(&rest.digits()[..], p) != 0 {
+            continue;
+        }
+        let pu = Uint::from(p);
+        let mut e = 0u32;
+        while (rest % pu).is_zero() {
+            rest /= pu;
+            e += 1;
+        }
+        f.push(json!([p, e]));
+    }
+    (f, rest)
+}
+
+fn block_value(w: u32, v: &Uint, trial: &[u64]) -> Value {
+    let (f, rest) = factor_block(v, trial);
+    json!({"w": w, "v": dn(v), "vd": v.to_string(), "f": f, "rest": dn(&rest)})
+}
+
+/// Logs a list of u32 that is supposed to be a run of consecutive primes: header + chunks.
+/// `lo`: smallest value the list is allowed to start from (2 for primes(k)).
+fn log_prime_list(out: &mut Out, case: &str, src: &str, k: i64, list: &[u32], lo: u32) {
+    // runs of equal segment
+    let mut chunks: Vec<(u32, usize, usize)> = vec![]; // (segment, start, end)
+    let mut start = 0;
+    for i in 1..=list.len() {
+        if i == list.len() || (list[i] >> 16) != (list[start] >> 16) {
+            chunks.push((list[start] >> 16, start, i));
+            start = i;
+        }
+    }
+    if src == "primes" {
+        out.ev(json!({"op": "primes", "case": case, "src": src, "k": k, "len": list.len(),
+                      "first": list.first().map(|&x| x as i64).unwrap_or(-1), "chunks": chunks.len()}));
+    }
+    // a list that is not increasing could produce very many runs: cap (the cap itself is then rejected
+    // by the order check of the next run, nothing is hidden)
+    let mut bprev: i64 = (lo >> 16) as i64 - 1;
+    let nch = chunks.len();
+    for (ci, (b, s, e)) in chunks.into_iter().enumerate().take(400) {
+        let idx: Vec<u32> = list[s..e].iter().map(|&v| v & 0xffff).collect();
+        let lo_idx = if b == (lo >> 16) { lo & 0xffff } else { 0 };
+        out.ev(json!({"op": "primes_chunk", "case": case, "src": src, "k": k, "b": b, "bprev": bprev,
+                      "lo": lo_idx, "idx": idx, "last": ci + 1 == nch, "pos": s}));
+        bprev = b as i64;
+    }
+}
+
+fn smooth_event(out: &mut Out, b1: u64, use_large: bool, trial: &[u64]) {
+    let case = format!("smooth/{}/{}", b1, use_large);
+    let r = guard(|| {
+        let sb = SmoothBase::new(b1 as usize, use_large);
+        ecm_hook::blocks(&sb)
+    });
+    match r {
+        Ok((small, large)) => {
+            let mut blocks = vec![];
+            for v in &small {
+                blocks.push(block_value(64, &Uint::from(*v), trial));
+            }
+            for v in &large {
+                blocks.push(block_value(1024, v, trial));
+            }
+            out.ev(json!({"op": "smooth", "case": case, "b1": b1, "use_large": use_large, "cut": false,
+                          "n64": small.len(), "n1024": large.len(), "blocks": blocks}));
+        }
+        Err(e) => out.ev2(json!({"op": "smooth", "case": case, "b1": b1, "use_large": use_large}), e),
+    }
+}
+
+/// a prime P = 2Q + 1 with Q prime (so that 2 has order Q or 2Q mod P and stage 1 can neither reach 1
+/// nor find a factor: every exponent block up to B1 is used)
+fn safe_prime() -> u64 {
+    let mut q: u64 = (1 << 61) + 1;
+    loop {
+        if is_prime_u64(q) && is_prime_u64(2 * q + 1) {
+            return 2 * q + 1;
+        }
+        q += 2;
+    }
+}
+
+fn pm1_event(out: &mut Out, n: u64, b1: u64, trial: &[u64]) {
+    let case = format!("pm1/{}", b1);
+    let nn = Uint::from(n);
+    yamaquasi::verif::start();
+    let r = guard_deadline(600.0, move || pollard_pm1::pm1_impl(&nn, b1, 1.0, Verbosity::Silent).is_some());
+    let evs = yamaquasi::verif::stop();
+    let base = json!({"op": "pm1_blocks", "case": case, "b1": b1, "n": n.to_string()});
+    match r {
+        Ok(found) => {
+            let mut blocks = vec![];
+            let mut merged = 0;
+            for line in &evs {
+                let v: Value = match serde_json::from_str(line) {
+                    Ok(v) => v,
+                    Err(_) => continue,
+                };
+                if v["op"] != "pm1_blk" {
+                    continue;
+                }
+                let val: Uint = v["v"].as_str().unwrap().parse().unwrap();
+                match v["kind"].as_str().unwrap() {
+                    "w64" => blocks.push(block_value(64, &val, trial)),
+                    "w1024" => blocks.push(block_value(1024, &val, trial)),
+                    _ => merged += 1,
+                }
+            }
+            out.ev2(base, json!({"cut": found, "merged": merged, "blocks": blocks}));
+        }
+        Err(e) => out.ev2(base, e),
+    }
+}
+
+pub fn run(args: &Args) -> i32 {
+    let tier = arg_str(args, "tier", "quick").to_string();
+    let thorough = tier == "thorough";
+    let _seed = arg_u64(args, "seed", 1);
+    let mut out = Out::create(arg_str(args, "out", "trace.ndjson"));
+    let mut rng = crate::gen::rng_for(_seed, "c17");
+    use rand::Rng;
+
+    // ---- primes(k)
+    let mut ks: Vec<u32> = (1..=if thorough { 3000 } else { 512 }).collect();
+    for j in 9..=if thorough { 20 } else { 14 } {
+        ks.extend_from_slice(&[(1 << j) - 1, 1 << j, (1 << j) + 1]);
+    }
+    ks.extend_from_slice(&[6541, 6542, 6543, 35000, 50_000, 100_000]);
+    if thorough {
+        ks.extend_from_slice(&[200_000, 500_000, 1_000_000]);
+    }
+    // a few seeded values of k
+    for _ in 0..(if thorough { 12 } else { 4 }) {
+        ks.push(rng.gen_range(513..20_000));
+    }
+    ks.sort();
+    ks.dedup();
+    for &k in &ks {
+        let case = format!("primes/{}", k);
+        match guard(|| fbase::primes(k)) {
+            Ok(list) => log_prime_list(&mut out, &case, "primes", k as i64, &list, 2),
+            Err(e) => out.ev2(json!({"op": "primes", "case": case, "src": "primes", "k": k}), e),
+        }
+    }
+
+    // ---- PrimeSieve::next, block by block (call number = block number)
+    let mut want: Vec<u32> = vec![0, 1, 2, 3, 15, 16, 255, 256, 1023, 32767, 32768, 65534, 65535];
+    for _ in 0..(if thorough { 200 } else { 3 }) {
+        want.push(rng.gen_range(4..65534));
+    }
+    want.sort();
+    want.dedup();
+    let r = guard(|| {
+        let mut evs: Vec<Value> = vec![];
+        let mut s = fbase::PrimeSieve::new();
+        let mut wi = 0;
+        for b in 0u32..65536 {
+            let blk = s.next();
+            if wi < want.len() && want[wi] == b {
+                wi += 1;
+                let base = (b as i64) << 16;
+                let idx: Vec<i64> = blk
+                    .iter()
+                    .map(|&v| {
+                        let d = v as i64 - base;
+                        d.clamp(-1, 65536) // out of the segment: rejected by the specification
+                    })
+                    .collect();
+                evs.push(json!({"op": "sieve_block", "case": format!("sieve/{}", b), "b": b, "len": blk.len(),
+                                "first": blk.first().map(|x| x.to_string()), "lastv": blk.last().map(|x| x.to_string()),
+                                "idx": idx}));
+            }
+        }
+        for b in 65536u32..65539 {
+            let blk = s.next();
+            evs.push(json!({"op": "sieve_end", "case": format!("sieve/{}", b), "b": b, "len": blk.len()}));
+        }
+        evs
+    });
+    match r {
+        Ok(evs) => {
+            for e in evs {
+                out.ev(e);
+            }
+        }
+        Err(e) => out.ev2(json!({"op": "sieve_block", "case": "sieve/run"}), e),
+    }
+
+    // ---- exponent blocks
+    let mut b1s: Vec<u64> = (4..=300).collect();
+    b1s.extend_from_slice(&[1000, 4095, 4096, 4097, 15000, 65535, 65536, 65537, 100_000]);
+    if thorough {
+        b1s.extend_from_slice(&[500_000, 1_000_000]);
+        for _ in 0..20 {
+            b1s.push(rng.gen_range(301..200_000));
+        }
+    } else {
+        for _ in 0..4 {
+            b1s.push(rng.gen_range(301..60_000));
+        }
+    }
+    let maxb1 = *b1s.iter().max().unwrap() as usize;
+    let trial = own_primes(2 * maxb1 + 1000);
+    for &b1 in &b1s {
+        for use_large in [false, true] {
+            smooth_event(&mut out, b1, use_large, &trial);
+        }
+    }
+    let n = safe_prime();
+    for &b1 in &b1s {
+        pm1_event(&mut out, n, b1, &trial);
+    }
+    // 64-bit P-1 base: packed prime powers ("up to bound 500") and the list of large primes from there on
+    match guard(|| pm1_hook::pm1base_blocks(&PM1Base::new())) {
+        Ok((factors, larges)) => {
+            let blocks: Vec<Value> = factors.iter().map(|&v| block_value(32, &Uint::from(v as u64), &trial)).collect();
+            out.ev(json!({"op": "pm1base", "case": "pm1base/factors", "b1": 500, "cut": false, "blocks": blocks,
+                          "nlarge": larges.len()}));
+            log_prime_list(&mut out, "pm1base/larges", "pm1base", larges.len() as i64, &larges, 500);
+        }
+        Err(e) => out.ev2(json!({"op": "pm1base", "case": "pm1base/factors"}), e),
+    }
+    out.finish();
+    0
 }
